@@ -108,7 +108,11 @@ def check_combine(case):
     if out != b:
         raise Violation("combine:union-differs-from-original", "")
     # idempotence and no mutation of operands
-    if combine([p, p]).serialize() != b or combine([p]).serialize() != b:
+    try:
+        alone = combine([p]).serialize()
+    except LIBEXC:
+        alone = b  # a Combiner may ask for two psbts: the property speaks of a psbt combined with itself
+    if combine([p, p]).serialize() != b or alone != b:
         raise Violation("combine:not-idempotent", "")
     if [o.serialize() for o in operands] != before:
         raise Violation("combine:operand-mutated", "")
@@ -126,6 +130,9 @@ def check_combine(case):
     r.hd_key_paths.clear()
     if [o.serialize() for o in operands] != before:
         raise Violation("combine:result-aliases-operand", "")
+    shared = _shared_mutables(combine(operands), operands)
+    if shared:
+        raise Violation(f"combine:result-shares-an-object-with-an-operand:{shared}", "")
     # different transactions are refused
     mm = case["mismatch"]
     if mm != "none":
@@ -190,10 +197,16 @@ def check_roles(case):
         v0, v2 = p.to_v0(), p.to_v2()
         if v0.tx.id != unsigned.to_v0().tx.id or v2.unique_id != unsigned.to_v2().unique_id or v0.lock_time != ident[1] or v2.lock_time != ident[1]:
             raise Violation(f"roles:conversion-changes-transaction:{name}", "")
-        if Psbt.parse(v0.serialize()) != v0 or Psbt.parse(v2.serialize()) != v2:
+        # the converted psbt is an encoding of its own (object equality with its re-parse is C05's question)
+        if Psbt.parse(v0.serialize()).serialize() != v0.serialize() or Psbt.parse(v2.serialize()).serialize() != v2.serialize():
             raise Violation(f"roles:converted-psbt-does-not-reparse:{name}", "")
-        if v2.to_v0().serialize() != v0.serialize() or v0.to_v2().serialize() != v2.serialize():
+        # there and back: version 0 cannot say everything version 2 can (to_v0 documents what is dropped), so it is the transaction that must survive; the
+        # psbt's own version comes back byte for byte
+        back0, back2 = v2.to_v0(), v0.to_v2()
+        if back0.tx.id != v0.tx.id or back2.unique_id != v2.unique_id or back0.lock_time != ident[1] or back2.lock_time != ident[1]:
             raise Violation(f"roles:conversion-round-trip:{name}", "")
+        if (p.version == 0 and back0.serialize() != p.serialize()) or (p.version == 2 and back2.to_v0().serialize() != v0.serialize()):
+            raise Violation(f"roles:conversion-round-trip:{name}", "bytes")
     for conv in (final.to_v0(), final.to_v2()):
         if extract_tx(conv).serialize(True).hex() != tx_hex:
             raise Violation("roles:extract-differs-across-versions", "")
@@ -216,10 +229,12 @@ def check_roles(case):
                 nxt = combine([cur, Psbt.parse(cur.serialize())])
             else:
                 nxt = finalize(cur)
-        except LIBEXC:
+        except LIBEXC as e:
             # a role may refuse (finalizing before every signature is there, signing a finalized psbt): the argument must still be untouched
             if cur.serialize() != before:
                 raise Violation(f"roles:argument-mutated-by-refusing-role:{op}", "")
+            if not (op.startswith("sign") or op == "finalize"):
+                raise Violation(f"roles:valid-psbt-refused:{op}", str(e)[:200]) from e  # converting, re-parsing and combining with itself have nothing to refuse
             tags.append(f"{op}:refused")
             continue
         if cur.serialize() != before:
@@ -230,7 +245,9 @@ def check_roles(case):
             raise Violation(f"roles:identity-changed:{op}", "")
         # aliasing: mutating the result's containers must not reach the argument
         snap = nxt.serialize()
-        probe = copy.copy(nxt)
+        shared = _shared_mutables(nxt, [cur])
+        if shared:
+            raise Violation(f"roles:result-shares-an-object-with-the-argument:{op}:{shared}", "")
         for inp in nxt.inputs:
             inp.unknown[b"\xf0probe"] = b"x"
             inp.partial_sigs.pop(next(iter(inp.partial_sigs)), None) if inp.partial_sigs else None
@@ -304,9 +321,48 @@ def check_roles(case):
 
 
 # ---------------------------------------------------------------- join
+def _mutable_ids(x, acc: dict, path: str) -> None:
+    """id -> where, of every mutable container and every non-frozen btclib object reachable from x"""
+    import dataclasses
+
+    if isinstance(x, (bytes, str, int, float, bool, type(None), frozenset)) or id(x) in acc:
+        return
+    if isinstance(x, dict):
+        acc[id(x)] = path
+        for k, v in x.items():
+            _mutable_ids(v, acc, path)
+    elif isinstance(x, (list, set, bytearray)):
+        acc[id(x)] = path
+        if not isinstance(x, bytearray):
+            for v in x:
+                _mutable_ids(v, acc, path)
+    elif isinstance(x, tuple):
+        for v in x:
+            _mutable_ids(v, acc, path)
+    elif dataclasses.is_dataclass(x) and not isinstance(x, type) and type(x).__module__.startswith(("btclib.psbt", "btclib.tx", "btclib.script", "btclib.bip32")):
+        if not type(x).__dataclass_params__.frozen:
+            acc[id(x)] = path or type(x).__name__
+        for f in dataclasses.fields(x):
+            _mutable_ids(getattr(x, f.name, None), acc, f"{path}.{f.name}" if path else f"{type(x).__name__}.{f.name}")
+
+
+def _shared_mutables(result, operands) -> str:
+    """'' or the field path of a mutable object the result holds that an operand holds too (what one party then changes, the other sees)"""
+    mine: dict = {}
+    _mutable_ids(result, mine, "")
+    for o in operands:
+        theirs: dict = {}
+        _mutable_ids(o, theirs, "")
+        hit = sorted(mine[k] for k in mine.keys() & theirs.keys())
+        if hit:
+            return hit[0]
+    return ""
+
+
 @st.composite
 def join_case(draw):
-    return {"a": draw(gp.psbt_case(max_inputs=2, max_outputs=2, dirty_finalized=False)), "b": draw(gp.psbt_case(max_inputs=2, max_outputs=2, dirty_finalized=False)), "overlap": draw(st.booleans())}
+    return {"a": draw(gp.psbt_case(max_inputs=2, max_outputs=2, dirty_finalized=False)), "b": draw(gp.psbt_case(max_inputs=2, max_outputs=2, dirty_finalized=False)), "overlap": draw(st.booleans()),
+            "modifiable": draw(st.sampled_from([None, 3, 3, 0xFB]))}  # version 2 joins need both psbts to allow new inputs and outputs: mostly given
 
 
 def check_join(case):
@@ -315,6 +371,9 @@ def check_join(case):
     if a_c["version"] == 0:
         for f in ("tx_modifiable", "sp_ecdh_shares", "sp_dleq_proofs"):
             b_c[f] = None if f == "tx_modifiable" else []
+    elif case.get("modifiable") is not None:
+        a_c = dict(a_c, tx_modifiable=case["modifiable"])
+        b_c["tx_modifiable"] = case["modifiable"]
     try:
         a, b = gp.build_psbt(a_c), gp.build_psbt(b_c)
     except LIBEXC:
@@ -326,21 +385,30 @@ def check_join(case):
     overlap = bool(ops_a & ops_b)
     try:
         j = join([a, b], False, False, False, False)
-    except LIBEXC:
+    except LIBEXC as e:
         if overlap:
             return Outcome(True, ("overlap-refused",))
-        return Outcome(False, ("join-refused-disjoint",))
+        return Outcome(False, ("join-refused-disjoint: " + str(e).split(":")[0][:40],))
     if overlap:
         raise Violation("join:overlapping-inputs-joined", "")
     if len(j.inputs) != len(a.inputs) + len(b.inputs) or len(j.outputs) != len(a.outputs) + len(b.outputs):
         raise Violation("join:inputs-or-outputs-missing", "")
-    ser = lambda x, v: x.serialize(psbt_version=v)  # noqa: E731
-    want_in = sorted(ser(i, j.version) for i in list(a.inputs) + list(b.inputs))
-    got_in = sorted(ser(i, j.version) for i in j.inputs)
-    want_out = sorted(ser(o, j.version) for o in list(a.outputs) + list(b.outputs))
-    got_out = sorted(ser(o, j.version) for o in j.outputs)
+    # the version 2 form of a map carries the outpoint, sequence, amount and script too (a version 0 map leaves them to the unsigned transaction): compared
+    # in that form whatever the psbt's version, in order (nothing was shuffled)
+    ser = lambda x: x.serialize(psbt_version=2)  # noqa: E731
+    want_in = [ser(i) for i in list(a.inputs) + list(b.inputs)]
+    got_in = [ser(i) for i in j.inputs]
+    want_out = [ser(o) for o in list(a.outputs) + list(b.outputs)]
+    got_out = [ser(o) for o in j.outputs]
     if want_in != got_in or want_out != got_out:
-        raise Violation("join:fields-lost", "")
+        raise Violation(f"join:fields-lost:{'inputs' if want_in != got_in else 'outputs'}:v{j.version}", "")
+    if j.version == 0:
+        tx = j.tx
+        if [(i.prev_out.tx_id, i.prev_out.vout, i.sequence) for i in tx.vin] != [(i.prev_out.tx_id, i.prev_out.vout, i.sequence) for p_ in (a, b) for i in p_.tx.vin] or \
+                [(o.value, o.script_pub_key.script) for o in tx.vout] != [(o.value, o.script_pub_key.script) for p_ in (a, b) for o in p_.tx.vout]:
+            raise Violation("join:unsigned-transaction-is-not-the-concatenation", "")
+    if _shared_mutables(j, [a, b]):
+        raise Violation(f"join:result-shares-an-object-with-a-joined-psbt:{_shared_mutables(j, [a, b])}", "")
     return Outcome(True, (f"v{j.version}",))
 
 
